@@ -175,7 +175,8 @@ class Run:
         self.names = names
         self.trace = trace
         self.profile = profile
-        self.toks = {}      # user -> list of tokens handed out (including dead ones)
+        self.toks = {}      # user -> tokens the driver believes are live
+        self.dead = []      # tokens it believes are logged out / deleted (still used now and then)
         self.counter = 0
         self.n_req = 0
         self.n_ok = 0
@@ -233,14 +234,21 @@ class Run:
         dbs.sort(key=lambda x: (x["owner"], x["db"]))
         files = [[f, owner_dir(f)] for f in self.srv.files()
                  if f not in SERVER_FILES and not f.startswith("agdb_server_data/agdb_server") and not f.startswith("agdb_server_data/.agdb_server")]
+        self.last = dbs
         self.emit({"ev": "obs", "users": users, "dbs": dbs, "files": files})
 
     def pick_token(self):
         r = self.rng
         who = r.choice(USERS + ["admin", "nobody"]) if self.profile != "names" else r.choice(USERS + ["admin"])
         tl = self.toks.get(who, [])
-        if tl and r.random() < 0.92:
+        if not tl and who != "nobody" and r.random() < 0.7:
+            self.login(who)          # fails (and is recorded) when the user does not exist at the moment
+            tl = self.toks.get(who, [])
+        x = r.random()
+        if tl and x < 0.88:
             return r.choice(tl)
+        if self.dead and x < 0.95:
+            return r.choice(self.dead)
         return "bogus-token"
 
     def batch(self):
@@ -259,8 +267,10 @@ class Run:
                 kinds.append(["alias", a])
             elif c == "edge_ref":
                 # refers to earlier results of this batch (or to results that do not exist)
-                i1 = r.randrange(0, max(1, i + 1))
-                i2 = r.randrange(0, max(1, i + 1))
+                # :N refers to an earlier insert of this batch, or (1 in 4) to a result that does not exist yet
+                good = [j for j in range(i) if kinds[j][0] in ("insert", "alias")]
+                i1 = r.choice(good) if good and r.random() < 0.75 else i + r.randrange(0, 2)
+                i2 = r.choice(good) if good and r.random() < 0.75 else i + r.randrange(0, 2)
                 qs.append(q_edge_ref(i1, i2))
                 kinds.append(["edge_ref", i1, i2])
             else:
@@ -274,10 +284,11 @@ class Run:
         tok = self.pick_token()
         prof = self.profile
         if prof == "auth":
-            ops = ["admin_user_add", "admin_user_delete", "login", "login", "logout", "logout_all", "logout_others", "admin_user_logout",
-                   "admin_logout_all", "db_add", "db_delete", "db_remove", "db_user_add", "db_user_add", "db_user_remove", "exec", "exec",
-                   "exec_mut", "exec_mut", "exec_mut", "optimize", "audit", "backup", "restore", "rollback", "clear", "convert",
-                   "copy", "rename", "db_user_list", "db_list"]
+            ops = ["admin_user_add", "admin_user_add", "admin_user_delete", "login", "login", "login", "login", "logout", "logout_all",
+                   "logout_others", "admin_user_logout", "admin_logout_all", "db_add", "db_add", "db_add", "db_delete", "db_remove",
+                   "db_user_add", "db_user_add", "db_user_add", "db_user_remove", "exec", "exec", "exec", "exec_mut", "exec_mut",
+                   "exec_mut", "exec_mut", "optimize", "audit", "backup", "backup", "restore", "rollback", "clear", "convert", "copy", "copy",
+                   "rename", "db_user_list", "db_list"]
         elif prof == "batch":
             ops = ["exec_mut"] * 8 + ["exec"] * 2 + ["db_add", "db_user_add", "login", "backup", "restore", "rollback", "clear"]
         else:  # names
@@ -289,6 +300,26 @@ class Run:
         owner = r.choice(USERS)
         db = r.choice(self.names)
         tu = r.choice(USERS + ["admin"] if prof == "auth" else USERS)
+        # bias towards requests that have a chance of being performed: an existing database, called by its owner
+        # or by somebody holding a role on it (the rest stays uniformly random, bogus tokens included)
+        last = getattr(self, "last", [])
+        if last and op != "db_add" and r.random() < 0.75:
+            d = r.choice(last)
+            owner, db = d["owner"], d["db"]
+            x = r.random()
+            who = owner if x < 0.5 else (r.choice(d["roles"])[0] if d["roles"] and x < 0.8 else None)
+            if who and not self.toks.get(who) and r.random() < 0.7:
+                self.login(who)
+            if who and self.toks.get(who):
+                tok = r.choice(self.toks[who])
+        elif op == "db_add" and r.random() < 0.7 and self.toks.get(owner):
+            tok = r.choice(self.toks[owner])
+        if op in ("admin_user_logout", "admin_user_delete", "admin_user_add"):
+            tu = r.choice(USERS)
+        if op.startswith("admin_") and r.random() < 0.6 and self.toks.get("admin"):
+            tok = r.choice(self.toks["admin"])
+        if admin_api and r.random() < 0.6 and self.toks.get("admin"):
+            tok = r.choice(self.toks["admin"])
         e = {"ev": "req", "op": op, "caller": tok, "owner": owner, "db": db, "user": tu, "admin_api": admin_api}
         pre = ("/admin" if admin_api else "") + "/db/%s/%s" % (seg(owner), seg(db))
         self.ops[op] = self.ops.get(op, 0) + 1
@@ -349,6 +380,25 @@ class Run:
         else:
             raise vlib.ToolError("unknown op " + op)
         e["status"] = s
+        if 200 <= s < 300:
+            # the driver's own belief about live sessions (only used to choose tokens; the model tracks sessions itself)
+            def kill(pred):
+                for u in list(self.toks):
+                    for t in list(self.toks[u]):
+                        if pred(u, t):
+                            self.toks[u].remove(t)
+                            self.dead.append(t)
+            me = next((u for u in self.toks if tok in self.toks[u]), None)
+            if op == "logout":
+                kill(lambda u, t: t == tok)
+            elif op == "logout_all":
+                kill(lambda u, t: u == me)
+            elif op == "logout_others":
+                kill(lambda u, t: u == me and t != tok)
+            elif op in ("admin_user_logout", "admin_user_delete"):
+                kill(lambda u, t: u == tu)
+            elif op == "admin_logout_all":
+                kill(lambda u, t: u != "admin")
         self.n_req += 1
         if 200 <= s < 300:
             self.n_ok += 1
@@ -365,8 +415,8 @@ class Run:
             s, _ = self.srv.call("POST", "/admin/user/%s/add" % seg(u), self.toks["admin"][0], {"password": PW[u]})
             self.emit({"ev": "req", "op": "admin_user_add", "caller": self.toks["admin"][0], "owner": "", "db": "", "user": u,
                        "admin_api": False, "status": s})
+            self.observe()
             self.login(u)
-        self.observe()
         for _ in range(steps):
             if not self.srv.alive():
                 self.emit({"ev": "Died", "msg": "the server process exited"})
